@@ -465,6 +465,14 @@ func judgeC04(ex *execution, e *Expect, out *Verdict) {
 				out.Fail = fmt.Sprintf("chain position %d (plugin %d) sees update resources that are not the request with earlier updates applied: %s", pos, pi, d)
 				return
 			}
+			if !rulesEqual(ex.seenRes[pi].GetDevices(), reqResources(c).GetDevices()) {
+				out.Fail = fmt.Sprintf("chain position %d (plugin %d): the device cgroup rules of the runtime's requested resources (no plugin can change them) are not what the runtime submitted: shown %v submitted %v",
+					pos, pi, ex.seenRes[pi].GetDevices(), reqResources(c).GetDevices())
+				return
+			}
+			if c.ReqDevRules {
+				out.Classes = append(out.Classes, "request_has_device_cgroup_rules")
+			}
 			if pos >= 1 && fmt.Sprint(e.ReqRes[pos]) != fmt.Sprint(e.ReqRes[0]) {
 				out.NonTrivial = true
 				out.Classes = append(out.Classes, fmt.Sprintf("changed_view_at:%d", pos))
@@ -715,6 +723,12 @@ func judgeC05(ex *execution, e *Expect, out *Verdict) {
 				out.Fail = "own entry is not the requested resources overlaid with the plugins' changes: " + d
 				return
 			}
+			if !rulesEqual(own.GetLinux().GetResources().GetDevices(), reqResources(c).GetDevices()) {
+				out.Fail = fmt.Sprintf("own entry is not the requested resources overlaid with the plugins' changes: device cgroup rules %v, requested %v",
+					own.GetLinux().GetResources().GetDevices(), reqResources(c).GetDevices())
+				return
+			}
+
 		}
 	}
 	// classes / non-trivial
@@ -734,6 +748,9 @@ func judgeC05(ex *execution, e *Expect, out *Verdict) {
 	out.Classes = []string{fmt.Sprintf("targets:%d", distinct)}
 	if repeated {
 		out.Classes = append(out.Classes, "repeated_target")
+	}
+	if c.Kind == "update" && c.ReqDevRules && len(e.Updates["SELF"]) > 0 {
+		out.Classes = append(out.Classes, "own_entry_over_a_request_with_device_cgroup_rules")
 	}
 	if e.Dropped > 0 {
 		out.Classes = append(out.Classes, "ignored_conflict_dropped")
